@@ -192,6 +192,7 @@ func (r *Rec) run(ctx context.Context) error {
 			return err
 		}
 	}
+	r.Tape.add(Event{Kind: "script-done", Node: r.Node, Party: r.Party, Session: r.Session})
 	if r.Hold != nil {
 		select {
 		case <-r.Hold:
